@@ -224,7 +224,8 @@ class ModelGen:
         for _ in range(n):
             if outer and rng.random() < 0.6:
                 cand = rng.choice(outer)           # REUSE the name of an enclosing parameter
-            elif self.pool_sh and rng.random() < self.p_bi:
+            elif self.pool_sh and rng.random() < self.p_bi and not (
+                    self.pool_sh[-1] in CALL_TEMPLATE_BUILTINS and _is_active(K_PARAM_ZIP)):
                 cand = self.pool_sh.pop()          # a parameter named like a built-in
                 self.builtin_named.add(cand)
                 self.feat("space_param_named_like_builtin")
@@ -1188,6 +1189,9 @@ K_MODEL_OBJREF = "C15-model-level-object-ref"
 K_KEYWORD_GLOBAL = "C15-keyword-named-like-global"
 K_NONFINITE = V.K_NONFINITE
 K_STATIC_BUILTIN_PARAM = "C15-static-access-builtin-named-param"
+K_PARAM_ZIP = "C15-param-named-zip"
+# built-ins that the generated `__call__` of an ItemSpace uses by name: a parameter of that name breaks it
+CALL_TEMPLATE_BUILTINS = ("zip",)
 
 
 
@@ -1206,6 +1210,10 @@ def _active_keys():
 
 
 _ACTIVE = _active_keys()
+
+
+def _is_active(key):
+    return _ACTIVE is None or key in _ACTIVE
 
 
 def _only_active(keys):
@@ -1391,6 +1399,8 @@ def desc_triggers(desc):
                     pass
             elif f:
                 params += [p for p, _ in f]
+        if any(n in CALL_TEMPLATE_BUILTINS for n in params):
+            keys.add(K_PARAM_ZIP)
         children = set(c["name"] for c in sp.get("spaces", []))
         for n in set(params) | children:
             if n in ALL_BUILTINS and n not in refs and n not in cells:
